@@ -108,7 +108,7 @@ def parseJsonOut (t : String) : JsonOut :=
 def splitEnv (toks : List String) : List String × List (String × Bool) × List String × JsonOut :=
   let args := toks.takeWhile (· ≠ "@")
   let rest := (toks.dropWhile (· ≠ "@")).drop 1
-  let rxs := rest.takeWhile (· ≠ ";")
+  let rxs := rest.takeWhile (fun t => t ≠ ";" && t ≠ ";;")
   let js := (rest.dropWhile (· ≠ ";")).drop 1
   let table := rxs.filterMap fun t =>
     match t.splitOn "=" with
@@ -205,7 +205,18 @@ def mkHook : String → Option Hook
   | "K" => some fun _ _ => some "KeyError"
   | "E" => some fun v _ => if v.totalBlocked % 2 = 0 then some "ValueError" else none
   | "A" => some fun v r => if v.audit.getLast? == some r then none else some "AssertionError"
+  -- re-entrant hooks (call back into the membrane while they run): the marker is interpreted by `step`, the hook
+  -- does not raise
+  | "F" => some fun _ _ => some "__reent:F"
+  | "G" => some fun _ _ => some "__reent:G"
+  | "L" => some fun _ _ => some "__reent:L"
   | _ => none
+
+/-- what a re-entrant hook of kind `k` does when it is told about the blocked input `c` -/
+def reentOps (k : String) (c : Str) : List MOp :=
+  if k = "F" then [.filter ("re-entrant probe".toList.map Char.toNat)]
+  else if k = "G" then [.filter c]
+  else [.learn ⟨"hooked".toList.map Char.toNat, 3, false⟩]
 
 /-- scripted `on_inflammation` adversaries -/
 def mkInnHook : String → Option InnHook
@@ -266,6 +277,20 @@ def step (st : DSt) (toks : List String) : DSt × String :=
     let hk := if hooked then
         s!"{m'.view.audit.length}/{showBool (m'.view.audit.getLast? == some r)}/{m'.view.totalBlocked}" else "-"
     let tag4 := if hooked then (if o.raised.isSome then " h:raise" else " h:ok") else ""
+    match (o.raised.filter (·.startsWith "__reent:")) with
+    | some mk =>
+      -- the hook re-entered the membrane: its calls run on the booked state with the hook un-installed
+      let kind := (mk.drop 8).toString
+      let env2 := mkEnv (parseTable ((toks.dropWhile (· ≠ ";;")).drop 1)) true js
+      let (st2, evs) := m'.reenter env2 st.now st.mem.onThreat (reentOps kind content)
+      let inner := match evs.head? with
+        | some e =>
+          let ri := e.out.decision
+          s!"{showBool ri.allowed} {ri.level} m={showSigs ri.matched} audit={st2.m.audit.length} last={showBool (st2.m.audit.getLast? == some ri)} rx={showRx (if ri.reason = Reason.scan then rxCalls m'.active else [])}"
+        | none => "ok"
+      ({ st with mem := st2.m },
+       s!"{showBool r.allowed} {r.level} m={showSigs r.matched} audit={m'.audit.length} last={showBool (m'.audit.getLast? == some r)} {memStats st2.m} rx={showRx calls} hk={hk}{rxModelCheck table content} | inner {inner} ## {tag}{tag2}{tag3} h:reenter")
+    | none =>
     let head := match o.raised with
       | some k => s!"raise:hook:{k}"
       | none => s!"{showBool r.allowed} {r.level} m={showSigs r.matched}"
@@ -346,6 +371,13 @@ def step (st : DSt) (toks : List String) : DSt × String :=
   | "import" :: sigs =>
     let m' := st.mem.importAb (sigs.map parseSig)
     ({ st with mem := m' }, s!"ok ln={m'.learned.length}")
+  -- the antibodies handed over as a one-shot generator / a tuple instead of a list: the same operation
+  | "importg" :: sigs =>
+    let m' := st.mem.importAb (sigs.map parseSig)
+    ({ st with mem := m' }, s!"ok ln={m'.learned.length}")
+  | "importt" :: sigs =>
+    let m' := st.mem.importAb (sigs.map parseSig)
+    ({ st with mem := m' }, s!"ok ln={m'.learned.length}")
   | ["thr", t] => ({ st with mem := st.mem.setThreshold (natD t) }, "ok")
   | ["thrattr", t] => ({ st with mem := st.mem.setThreshold (natD t) }, "ok")
   | ["rate", r] => ({ st with mem := st.mem.setRate (if r = "none" then none else some (numTok r)) }, "ok")
@@ -377,6 +409,9 @@ def step (st : DSt) (toks : List String) : DSt × String :=
     | _ => (st, "bad-op")
   -- how the input string is wrapped (fields of the Signal other than `content`; the same Signal object sent again or
   -- edited in place): no decision depends on it, the model has nothing to do
+  -- the caller edits what a getter returned (`m.get_audit_log().clear()`, `m.export_antibodies().clear()`,
+  -- `m.get_statistics().clear()`): the getters hand out copies, nothing happens to the gate
+  | ["mutret", _] => (st, "ok")
   | ["envelope", _] => (st, "ok")
   | ["sigobj", _] => (st, "ok")
   | ["adaptive", b] => ({ st with mem := st.mem.setAdaptive (boolOf b) }, "ok")
